@@ -132,6 +132,7 @@ type Ctx struct {
 	specErr       string // set when spec-level evaluation needed something impure
 	pendingShift  int
 	noWF          bool
+	noClosed      bool
 	extraUses     []string
 	curArgs       []Val
 	curState      *State
@@ -195,7 +196,7 @@ func (c *Ctx) defineAlways(base, sort, term string) string {
 	if c.specDepth > 0 {
 		return term
 	}
-	if strings.HasPrefix(sort, "(Array") && strings.Contains(term, "(ite ") {
+	if strings.HasPrefix(sort, "(Array") {
 		// arrays appear inside quantifier patterns, where `ite` is not allowed: name them by a constant
 		n := c.fresh(base)
 		c.lines = append(c.lines, fmt.Sprintf("(declare-const %s %s)", n, sort))
